@@ -37,6 +37,7 @@ THEOREMS = [
     'CC.C09_line', 'CC.C09_time_function', 'CC.C09_time_value', 'CC.C09_kcl_instant',
     'CC.C09_superpose_sources', 'CC.C09_source_reconstruction',
     'CC.C09_two_sided', 'CC.C09_two_sided_dc', 'CC.C09_two_sided_lines',
+    'CC.C09_kcl_instant_circuit', 'CC.C09_superpose_sources_reported',
 ]
 OPEN_STATEMENTS = ['CC.C09_once_statement (false after fix 6e56e9e for chains of frequencies: C09_once_counterexample)']
 ASSUMPTIONS = [
